@@ -546,7 +546,7 @@ def build(ctx, i):
     if i % 5 == 1:
         # the block under test is a PostSynthBlock (what synthesize() leaves as the working block): the fault
         # classes and the simulators' own sanity_check call apply to it like to any other block
-        d = gen_designs.make_design(rng, wide_prob=0.0, n_ops=rng.randint(2, 5), max_width=4,
+        d = gen_designs.make_design(rng, wide_prob=0.0, n_ops=rng.randint(2, 4), max_width=3,
                                     allow_rom=(i % 2 == 0))
         pyrtl.synthesize()
         d.block = pyrtl.working_block()
@@ -662,7 +662,7 @@ def run(ctx):
     # ---- (b): fault injection
     for i in range(ndesigns):
         for fault in FAULTS:
-            for site in range(sites_per_fault):
+            for site in range(sites_per_fault if (i % 5 != 1 or ctx.tier != 'quick') else 1):
                 d = safe_build(ctx, i, 'b')
                 if d is None:
                     break
@@ -715,7 +715,7 @@ def run(ctx):
                             real_ord = [net_raise_ordinal(block, n, line2ord) for n in logic]
                             for k in real_ord:
                                 ctx.count('raise_ordinal_hit', k)
-                            exprs.append('let nl := %s in (sanity_case nl [], check_case nl)' % dump.coq())
+                            exprs.append('(fun nl => (sanity_case nl [], check_case nl)) %s' % dump.coq())
                             meta.append(('sanity', i, fault, ok, rep, real_ord, [str(n) for n in logic]))
                         else:
                             exprs.append('(sanity_case %s [], (@nil Z))' % dump.coq())
